@@ -303,14 +303,14 @@ class Product:
         # transform tablefile
         if utils.isRealFilename(self.tablefile) and os.path.isabs(self.tablefile):
             if utils.isRealFilename(self.db) and \
-                 self.tablefile.startswith(self.db):
+                 self.tablefile.startswith(self.db+sl):
                 if self.ups_dir is None:
                     self.ups_dir = os.path.join("$UPS_DB",
                                os.path.dirname(self.tablefile)[len(self.db)+1:])
                     self.tablefile = os.path.basename(self.tablefile)
                 else:
                     self.tablefile = os.path.join("$UPS_DB",
-                                                  self.ups_dir[len(self.db)+1:])
+                                                  self.tablefile[len(self.db)+1:])
             elif utils.isRealFilename(self.ups_dir):
                 if self.tablefile.startswith(self.ups_dir+sl):
                     # a relative tablefile path is relative to ups_dir,
